@@ -76,7 +76,7 @@ Lemma source_constants :
   gen_dctsize2 = DCTSIZE2 /\ gen_seq_zrl_threshold = 16 * gen_seq_run_step /\ gen_seq_run_step = 16 /\
   gen_seq_dc_extra_bits = 1 /\ gen_max_coef_bits_offset = 2 /\ gen_restart_num_mask = 7 /\
   gen_eobrun_flush_ac_first = EOBRUN_FLUSH /\ gen_eobrun_flush_ac_refine = EOBRUN_FLUSH /\
-  gen_max_corr_bits = MAX_CORR_BITS /\ gen_prog_zrl_run_first = 15 /\ gen_prog_zrl_run_refine = 15 /\
+  gen_max_corr_bits = MAX_CORR_BITS /\ gen_acr_be_before_flush = true /\ gen_prog_zrl_run_first = 15 /\ gen_prog_zrl_run_refine = 15 /\
   gen_eobrun_max_nbits = 14 /\ gen_dec_zrl_r = 15 /\ gen_dec_zrl_skip = 15 /\
   gen_pdec_zrl_r = 15 /\ gen_pdec_zrl_skip = 15.
 Proof. repeat split. Qed.
